@@ -1030,3 +1030,149 @@ func funcDeclOf(p *Program, pkgRel, fn string) (*ast.FuncDecl, *packages.Package
 	}
 	return fd, pk, nil
 }
+
+// ---------- LIT6: FHIR temporal elements render as the value they hold ----------
+
+// fhirconv.{Date,DateTime,Instant,Time}ToString are evaluated (package time
+// folded on known values) on elements whose fields are constants — instants
+// from year 0001 to 9999, every precision, several zone strings — and compared
+// with the civil rendering computed by the checker's own calendar.
+func ruleLIT6(p *Program) *RuleResult {
+	r := newResult("LIT6")
+	type civ struct{ y, mo, d, h, mi, s, us int }
+	instants := []civ{{1, 1, 1, 0, 0, 0, 0}, {1677, 9, 21, 0, 12, 43, 0}, {1677, 9, 20, 12, 0, 0, 0}, {1969, 12, 31, 23, 59, 59, 999999}, {1970, 1, 1, 0, 0, 0, 0},
+		{2020, 2, 29, 13, 5, 9, 120000}, {2262, 4, 11, 23, 47, 16, 0}, {2262, 4, 12, 0, 0, 0, 0}, {9999, 12, 31, 23, 59, 59, 123456}}
+	zones := []struct {
+		s   string
+		off int
+	}{{"", 0}, {"Z", 0}, {"UTC", 0}, {"+05:30", 19800}, {"-11:00", -39600}}
+	type target struct {
+		typ, fn string
+		precs   map[string]string // enum name -> FHIR format over tokens Y M D h m s f3 f6 Z
+	}
+	targets := []target{
+		{"Date", "DateToString", map[string]string{"Date_YEAR": "Y", "Date_MONTH": "Y-M", "Date_DAY": "Y-M-D"}},
+		{"DateTime", "DateTimeToString", map[string]string{"DateTime_YEAR": "Y", "DateTime_MONTH": "Y-M", "DateTime_DAY": "Y-M-D", "DateTime_SECOND": "Y-M-DTh:m:sZ", "DateTime_MILLISECOND": "Y-M-DTh:m:s.f3Z", "DateTime_MICROSECOND": "Y-M-DTh:m:s.f6Z"}},
+		{"Instant", "InstantToString", map[string]string{"Instant_SECOND": "Y-M-DTh:m:sZ", "Instant_MILLISECOND": "Y-M-DTh:m:s.f3Z", "Instant_MICROSECOND": "Y-M-DTh:m:s.f6Z"}},
+	}
+	enumVal := func(name string) (constant.Value, bool) {
+		for path, pk := range p.SSAPkg {
+			if path == dtPkgPath {
+				if c, ok := pk.Pkg.Scope().Lookup(name).(*types.Const); ok {
+					return c.Val(), true
+				}
+			}
+		}
+		return nil, false
+	}
+	render := func(f string, c civ, zone string) string {
+		rep := strings.NewReplacer("Y", fmt.Sprintf("%04d", c.y), "M", fmt.Sprintf("%02d", c.mo), "D", fmt.Sprintf("%02d", c.d), "h", fmt.Sprintf("%02d", c.h),
+			"m", fmt.Sprintf("%02d", c.mi), "s", fmt.Sprintf("%02d", c.s), "f3", fmt.Sprintf("%03d", c.us/1000), "f6", fmt.Sprintf("%06d", c.us), "Z", zone)
+		return rep.Replace(f)
+	}
+	mkElem := func(typ string, fields map[string]aval) (aval, error) {
+		t := typeByName(p, dtPkgPath, typ)
+		if t == nil {
+			return aval{}, fmt.Errorf("anchor: datatypes %s not found", typ)
+		}
+		st := t.Underlying().(*types.Struct)
+		e := aval{k: kStruct}
+		for i := 0; i < st.NumFields(); i++ {
+			if v, ok := fields[st.Field(i).Name()]; ok {
+				e.elems = append(e.elems, v)
+			} else {
+				e.elems = append(e.elems, zeroOf(st.Field(i).Type()))
+			}
+		}
+		return ptrTo(e), nil
+	}
+	for _, tg := range targets {
+		fn, err := p.Func("internal/fhirconv", tg.fn)
+		if err != nil {
+			return r.anchorFail(err)
+		}
+		for _, pv := range precisionEnum(p, tg.typ) {
+			format, known := tg.precs[pv]
+			if !known {
+				continue // PRECISION_UNSPECIFIED
+			}
+			cv, _ := enumVal(pv)
+			bad, n := 0, 0
+			first := ""
+			for _, c := range instants {
+				for _, z := range zones {
+					n++
+					r.count("evaluations", 1)
+					// the element holds the instant of the civil time c in zone z
+					us := (int64(daysFromCivil(c.y, c.mo, c.d))*86400+int64(c.h*3600+c.mi*60+c.s)-int64(z.off))*1000000 + int64(c.us)
+					elem, err := mkElem(tg.typ, map[string]aval{"ValueUs": cInt(us), "Timezone": cStr(z.s), "Precision": {k: kConst, c: cv}})
+					if err != nil {
+						return r.anchorFail(err)
+					}
+					an := newAnalyzer()
+					an.maxBlocks = 300
+					an.maxDepth = 6
+					got, ok := constStr(an.analyze(fn, []aval{elem}).joinedReturn())
+					zs := fmt.Sprintf("%+03d:%02d", z.off/3600, (z.off%3600)/60)
+					if z.off < 0 {
+						zs = fmt.Sprintf("-%02d:%02d", -z.off/3600, (-z.off%3600)/60)
+					}
+					want := render(format, c, zs)
+					if !ok || got != want {
+						bad++
+						if first == "" {
+							if !ok {
+								first = fmt.Sprintf("the element for %s (zone %q) could not be evaluated", render("Y-M-DTh:m:s.f6", c, ""), z.s)
+							} else {
+								first = fmt.Sprintf("the element holding %s in zone %q renders as %q, FHIR form %q", render("Y-M-DTh:m:s.f6", c, ""), z.s, got, want)
+							}
+						}
+					}
+				}
+			}
+			key := fmt.Sprintf("fhirconv.%s|%s", tg.fn, pv)
+			if bad == 0 {
+				r.ok(key, fmt.Sprintf("%s renders %s elements as the civil time they hold on %d instants x zones (years 0001–9999)", tg.fn, pv, n), p.pos(fn.Pos()), "constant propagation with the element's fields pinned and package time folded, compared with the checker's calendar", true)
+			} else {
+				r.bad(key, fmt.Sprintf("%s with precision %s: %d of %d cells differ; first: %s", tg.fn, pv, bad, n, first), p.pos(fn.Pos()), "the string form of a FHIR temporal element must denote the instant, precision and offset the element holds")
+			}
+		}
+	}
+	// Time: microseconds of day
+	fn, err := p.Func("internal/fhirconv", "TimeToString")
+	if err != nil {
+		return r.anchorFail(err)
+	}
+	for pv, format := range map[string]string{"Time_SECOND": "h:m:s", "Time_MILLISECOND": "h:m:s.f3", "Time_MICROSECOND": "h:m:s.f6"} {
+		cv, _ := enumVal(pv)
+		bad, n := 0, 0
+		first := ""
+		for _, c := range []civ{{h: 0}, {h: 23, mi: 59, s: 59, us: 999999}, {h: 12, mi: 30, s: 15, us: 250000}, {h: 1, mi: 2, s: 3, us: 4005}} {
+			n++
+			r.count("evaluations", 1)
+			us := int64(c.h*3600+c.mi*60+c.s)*1000000 + int64(c.us)
+			elem, err := mkElem("Time", map[string]aval{"ValueUs": cInt(us), "Precision": {k: kConst, c: cv}})
+			if err != nil {
+				return r.anchorFail(err)
+			}
+			an := newAnalyzer()
+			an.maxBlocks = 300
+			got, ok := constStr(an.analyze(fn, []aval{elem}).joinedReturn())
+			want := render(format, c, "")
+			if !ok || got != want {
+				bad++
+				if first == "" {
+					first = fmt.Sprintf("%q (evaluated=%v), FHIR form %q", got, ok, want)
+				}
+			}
+		}
+		key := "fhirconv.TimeToString|" + pv
+		if bad == 0 {
+			r.ok(key, fmt.Sprintf("TimeToString renders %s elements as the time of day they hold (%d values)", pv, n), p.pos(fn.Pos()), "constant propagation with the element's fields pinned", true)
+		} else {
+			r.bad(key, fmt.Sprintf("TimeToString with precision %s: %d of %d cells differ; first: %s", pv, bad, n, first), p.pos(fn.Pos()), "the string form must denote the time the element holds")
+		}
+	}
+	r.floor("evaluations", 400)
+	return r
+}
